@@ -106,6 +106,21 @@ Theorem make_stream_table :
              && Bool.eqb (can_write (s_buffer s)) (m_writing m))) all_modes = true.
 Proof. vm_compute. reflexivity. Qed.
 
+(* text I/O cannot be unbuffered: every mode without 'b' is rejected with buffering = 0 (any mode string, not only the
+   24 spellings), and every other call builds the stack of the table *)
+Theorem make_stream_text_unbuffered_rejected : forall m,
+  has_char ch_b m = false -> make_stream_call m 0%Z = None.
+Proof. intros m Hb. unfold make_stream_call. rewrite Hb. reflexivity. Qed.
+
+Theorem make_stream_call_builds : forall m b,
+  (b <> 0%Z \/ has_char ch_b m = true) -> make_stream_call m b = Some (make_stream m b).
+Proof.
+  intros m b H. unfold make_stream_call.
+  destruct H as [Hb | Hb].
+  - destruct (Z.eqb_spec b 0) as [E | _]; [contradiction | reflexivity].
+  - rewrite Hb. rewrite Bool.andb_false_r. reflexivity.
+Qed.
+
 Theorem make_stream_unbuffered :
   forallb (fun m => match s_buffer (make_stream m (-1)%Z) with NoBuffer => true | _ => false end)
           all_modes = true.
